@@ -22,9 +22,17 @@ func abortAction(rng *Rng) Action {
 	case "abortthen":
 		return Action{Op: "abortthen"}
 	case "abortstatus":
-		return Action{Op: "abortstatus", N: rng.Pick2(401, 403)}
+		return Action{Op: "abortstatus", N: abortCode(rng)}
 	}
-	return Action{Op: "abortstatus", N: rng.Pick2(429, 503), S: "denied"}
+	return Action{Op: "abortstatus", N: abortCode(rng), S: "denied"}
+}
+
+// abortCode: mostly the usual 4xx/5xx, now and then any class of status (1xx, 204, 304, ...).
+func abortCode(rng *Rng) int {
+	if rng.Chance(1, 4) {
+		return []int{100, 101, 103, 200, 204, 205, 301, 304, 400, 404, 418, 451, 500, 599}[rng.Intn(14)]
+	}
+	return []int{401, 403, 429, 503}[rng.Intn(4)]
 }
 
 func c05Scripts(long bool) func(g *Gen, id string, kind byte) []Action {
